@@ -325,6 +325,21 @@ def run(ctx):
                     break
                 raise Broken("envconc chain3 failed rc=%d: %s" % (p.returncode, se[-1500:]))
         ctx.cov["race_detector_chain3_rounds"] = n3
+    if not ctx.violations:
+        # Copy / DeepCopy of scopes with 5 .. 1000 symbols while a writer stores related values: every snapshot is the table of ONE instant
+        nb = 2000 if ctx.quick() else 30000
+        ps = [subprocess.Popen([b, "bigcopy", str(nb)], env=vlib.goenv(), stdout=subprocess.PIPE, stderr=subprocess.PIPE, text=True) for b in (binp, binp, binr)]
+        for p in ps:
+            so, se = p.communicate(timeout=1800)
+            if p.returncode == 3 and "SNAPSHOT-TORN" in so:
+                if not ctx.violations:
+                    vlib.violation(ctx, "Copy is not one atomic read of the scope: " + so.strip()[:300], {"kind": "bigcopy", "report": so[:2000]})
+            elif p.returncode == 66 or "WARNING: DATA RACE" in se:
+                if not ctx.violations:
+                    vlib.violation(ctx, "data race inside package env (copies of large scopes) reported by the race detector: " + race_key(se), {"kind": "race", "report": se[:6000], "finding_key": race_key(se)})
+            elif p.returncode != 0:
+                raise Broken("envconc bigcopy failed rc=%d: %s" % (p.returncode, se[-1500:]))
+        ctx.cov["bigcopy_rounds"] = nb * 3 * 4
     return vlib.finish(ctx, RULE, exhaustive=True)
 
 
@@ -336,7 +351,7 @@ def race_key(report):
 def replay(ctx, path):
     p = json.load(open(path))
     overlay = make_overlay(ctx)
-    if p.get("kind") == "race":
+    if p.get("kind") in ("race", "bigcopy"):
         print("race reports are re-obtained by re-running bin/check C13")
         return 2
     binp = vlib.build_harness(ctx, "envconc", overlay=overlay)
